@@ -1062,7 +1062,7 @@ def suite_malformed(out, tier, seed):
             cpu = time.process_time() - t0
             if [v.value for v in res] != list(range(1, nvb + 1)):
                 out.fail({"kind": "many-bindings", "bindings": nvb}, "wrong values", "the agent's values")
-            elif cpu > 0.004 * nvb + 0.5:
+            elif cpu > 0.001 * nvb + 0.3:
                 out.fail({"kind": "many-bindings", "bindings": nvb}, "%.2f s CPU" % cpu, "time bounded by a small multiple of the datagram size")
         except TimeoutError:
             out.fail({"kind": "many-bindings", "bindings": nvb}, "no end within 6 s", "time bounded by a small multiple of the datagram size")
@@ -1388,7 +1388,7 @@ def suite_udp(out, tier, seed):
             if exc is not None or res != (b"" if plan[first] == "empty" else b"reply-%d" % first):
                 out.fail(scen, repr(res or exc), "the first reply's bytes (attempt %d)" % first)
         else:
-            if not isinstance(exc, Timeout) or len(got) != retries or not (retries * T * 0.9 <= elapsed <= retries * T * 1.8 + 0.3):
+            if not isinstance(exc, Timeout) or len(got) != retries or not (retries * T * 0.9 <= elapsed <= retries * T * 3 + 1.0):
                 out.fail(scen, "%r after %.2fs and %d datagrams" % (exc, elapsed, len(got)), "Timeout after exactly %d attempts of %.2fs" % (retries, T))
     out.case(("udp", "icmp"))
     res, exc, elapsed, got, leaked = run(one((), 2, closed_port=True))
